@@ -49,6 +49,7 @@ class AioImpl:
         self.tasks = {}
         self.next_id = 0
         self.events = []
+        self.sent = {}
         self.lines = []
         self.blocks = []
         self.loop_errors = []
@@ -95,6 +96,8 @@ class AioImpl:
             impl.events.append("EV start %d %d %d [%s] {%s}" % (
                 jid, impl.loop.now_us(), due, ",".join(str(a) for a in args),
                 ",".join("%s:%s" % (kk[1:], v) for kk, v in kwargs.items())))
+            if jid in impl.sent and core.identity_lost(impl.sent[jid], args, kwargs):
+                impl.events.append("EV identity-lost %d" % jid)   # never produced by the model
             for o in pre:
                 impl.do_aop(o)
             d = max(0, durs[n]) if n < len(durs) else 0
@@ -165,8 +168,9 @@ class AioImpl:
                 durs, pre, post, sync = (o[2], o[3], o[4], o[5]) if k == "ASCHED" else (o[3], o[4], o[5], o[6])
                 coro = self.make_coro(jid, c, durs, pre, post, sync)
                 kw = dict(max_attempts=c["max"], tags={tagname(t) for t in c["tags"]}, skip_missing=c["skip"],
-                          args=tuple(c["args"]) if c["args"] else None,
-                          kwargs={"k%d" % kk: v for kk, v in c["kwargs"]} if c["kwargs"] else None)
+                          args=tuple(core.Val(a) for a in c["args"]) if c["args"] else None,
+                          kwargs={"k%d" % kk: core.Val(v) for kk, v in c["kwargs"]} if c["kwargs"] else None)
+                self.sent[jid] = (kw["args"], dict(kw["kwargs"]) if kw["kwargs"] else None)
                 if not c["delay"]:
                     kw["delay"] = False
                 if c["start"] is not None:
